@@ -479,7 +479,8 @@ func (c *Catalog) AddType(
 	case notation.SchemaNotationJSight:
 		s, _ := coreUserTypes.Get(name)
 		es := newExchangeJSightSchema(s.(*jschema.JSchema))
-		if astDepthExceeds(&es.JSchema.ASTNode, maxSchemaDepth) {
+		if astDepthExceeds(&es.JSchema.ASTNode, maxSchemaDepth) ||
+			depthWithInheritedProperties(&es.JSchema.ASTNode, coreUserTypes, map[string]struct{}{name: {}}) > maxSchemaDepth {
 			return d.KeywordError(jerr.SchemaIsTooDeep)
 		}
 		es.catalogUserTypes = c.UserTypes
